@@ -79,6 +79,9 @@ func (e *Exec) logAbs(format string, args ...interface{}) {
 }
 
 func (e *Exec) oblName(kind string) string {
+	if e.quiet > 0 {
+		return kind
+	}
 	e.counters[kind]++
 	return fmt.Sprintf("%s/%s#%d", e.funcKey, kind, e.counters[kind])
 }
@@ -258,6 +261,7 @@ func (e *Exec) execRegion(region map[*ssa.BasicBlock]bool, entry *ssa.BasicBlock
 			panic("unexpected back edge delivery")
 		}
 		incoming[to] = append(incoming[to], s)
+		e.notePhiEdge(from, to, s)
 		need[to]--
 		if need[to] == 0 && !done[to] {
 			ready = append(ready, to)
@@ -295,6 +299,7 @@ func (e *Exec) execRegion(region map[*ssa.BasicBlock]bool, entry *ssa.BasicBlock
 					continue
 				}
 				incoming[ex.to] = append(incoming[ex.to], ex.st)
+				e.notePhiEdge(nil, ex.to, ex.st)
 				// count: number of preds of ex.to that are in loop
 				need[ex.to]--
 				if need[ex.to] == 0 && !done[ex.to] {
@@ -649,7 +654,7 @@ func (e *Exec) execInstr(s *State, ins ssa.Instruction) {
 				e.addObl(s, e.oblName("safety/nil-deref"), "safety", Not(Eq(n, IntLit(0))), x.Pos(), "nil pointer dereference: "+x.X.Name()+"."+st.Field(x.Field).Name())
 			}
 		}
-		e.setReg(x, &FieldPtr{Base: base, ST: st, Idx: x.Field})
+		e.setReg(x, &FieldPtr{Base: base, ST: st, Idx: x.Field, NT: derefType(x.X.Type())})
 	case *ssa.Field:
 		sv := e.val(s, x.X).(*StructV)
 		e.setReg(x, sv.F[x.Field])
@@ -681,13 +686,24 @@ func (e *Exec) execInstr(s *State, ins ssa.Instruction) {
 		} else {
 			fv = e.val(s, x.Call.Value)
 		}
-		s.defers = append(s.defers, deferred{x, args, fv})
+		s.defers = append(s.defers, deferred{instr: x, args: args, fnv: fv})
 	case *ssa.RunDefers:
-		for i := len(s.defers) - 1; i >= 0; i-- {
-			d := s.defers[i]
-			e.callCommon(s, d.instr, &d.instr.Call, d.args, d.fnv)
-		}
+		ds := s.defers
 		s.defers = nil
+		for i := len(ds) - 1; i >= 0; i-- {
+			d := ds[i]
+			if d.cond == nil {
+				e.callCommon(s, d.instr, &d.instr.Call, d.args, d.fnv)
+				continue
+			}
+			run := s.clone()
+			run.assume(d.cond)
+			skip := s.clone()
+			skip.assume(Not(d.cond))
+			e.callCommon(run, d.instr, &d.instr.Call, d.args, d.fnv)
+			m := e.mergeStates([]*State{run, skip})
+			*s = *m
+		}
 	case *ssa.Go:
 		e.logAbs("go statement: no effect on the spawning thread")
 	case *ssa.MakeInterface:
@@ -718,7 +734,7 @@ func (e *Exec) execInstr(s *State, ins ssa.Instruction) {
 	case *ssa.SliceToArrayPointer:
 		e.unsupported("slice to array pointer conversion")
 	case *ssa.Phi:
-		e.unsupported("phi node (NaiveForm expected)")
+		e.setReg(x, e.phi(s, x))
 	default:
 		e.unsupported("instruction %T", ins)
 	}
@@ -1078,4 +1094,46 @@ func (e *Exec) allocSite(s *State, ins ssa.Instruction, n *Node, et types.Type) 
 	_ = total
 	g := App("<=", "Bool", App("*", "Int", n, IntLit(sz)), bound)
 	e.addObl(s, e.oblName("alloc"), "alloc", g, ins.Pos(), "allocation bounded by "+e.fc.AllocBound.Text)
+}
+
+func (e *Exec) notePhiEdge(from, to *ssa.BasicBlock, s *State) {
+	if e.phiIn == nil {
+		e.phiIn = map[*ssa.BasicBlock][]phiEdge{}
+	}
+	e.phiIn[to] = append(e.phiIn[to], phiEdge{from, s.pc})
+}
+
+// phi nodes survive NaiveForm only for && / || value merges.
+func (e *Exec) phi(s *State, x *ssa.Phi) Value {
+	b := x.Block()
+	edges := e.phiIn[b]
+	var res Value
+	for i := len(edges) - 1; i >= 0; i-- {
+		ed := edges[i]
+		if ed.from == nil {
+			e.unsupported("phi after a loop exit")
+		}
+		var v Value
+		found := false
+		for k, p := range b.Preds {
+			if p == ed.from {
+				v = e.val(s, x.Edges[k])
+				found = true
+				break
+			}
+		}
+		if !found {
+			e.unsupported("phi edge not found")
+		}
+		if res == nil {
+			res = v
+			continue
+		}
+		c := ed.pc
+		res = zipLeaves(v, res, func(a, r *Node) *Node { return Ite(c, a, r) })
+	}
+	if res == nil {
+		e.unsupported("phi without incoming edges")
+	}
+	return res
 }
